@@ -120,7 +120,8 @@ CHECKS = {
             "built structure are decided differentially against the reference reader (extracted reference semantics running "
             "tests/grammars/meta.pest, regenerated into Grammars.v, + denote with pest's value limits) on generated grammar "
             "texts with every syntactic form and layout, bundled grammars, mutations, edge texts. Proved: the front-end model "
-            "is total (C10_front_end_total); the reader never reaches an undefined rule, its verdict is fuel-independent, its "
+            "is total (C10_front_end_total); the restructuring repair of the infix parser (6964c88) preserves the front end's "
+            "result on every text (C10_infix_refactoring_preserved_front_end: old and new parser both transcribed); the reader never reaches an undefined rule, its verdict is fuel-independent, its "
             "trees are well-formed, it terminates on every text. NOT proved: equivalence of the front-end model and the "
             "reference reader (that tie is differential).", "4.C10",
             "front-end model with exact tie + reference reader = proved semantics on pest's own meta-grammar; differential"),
